@@ -9,15 +9,43 @@ EXTENDS GraphsOps, TLCExt, Json, IOUtils
 Traces == ndJsonDeserialize(IOEnv.TRACE_FILE)
 ToSet(q) == {q[i] : i \in DOMAIN q}
 
-VARIABLES tid, l, cur, prev
-vars == <<tid, l, cur, prev>>
+VARIABLES tid, l, cur, prev,
+          mroots,   \* structural root goals: GraphsOps.GoalRoots of the registered CDGs + registry
+          mpar      \* goal id -> structural parents: GraphsOps.GoalEdges of the registered CDGs
+vars == <<tid, l, cur, prev, mroots, mpar>>
+
+(* The goals a goal "structurally depends on" are defined by the control-dependence graphs and the *)
+(* predicate registry the instrumentation registered (trace header `cos`, `goals`), not by the    *)
+(* _BranchFitnessGraph under test: TLC derives them once per trace with the GraphsOps operators.  *)
+GoalRecs(t) == ToSet(t.goals)                   \* <<gid, kind, code object, predicate id, outcome>>
+StructGoalGraph(t) ==
+  LET gidof == TLCEval([k \in {<<x[3], x[4], x[5]>> : x \in {y \in GoalRecs(t) : y[2] = "b"}} |->
+                 (CHOOSE y \in GoalRecs(t) : y[2] = "b" /\ <<y[3], y[4], y[5]>> = k)[1]])
+      keys == DOMAIN gidof
+      perco(co) ==
+        LET C == ToSet(co.cdg)  Ns == ToSet(co.nodes)
+            P == {p[2] : p \in ToSet(co.preds)}
+            pid == TLCEval([n \in P |-> (CHOOSE p \in ToSet(co.preds) : p[2] = n)[1]])
+            known(gl) == gl[1] \in P /\ <<co.cid, pid[gl[1]], gl[2]>> \in keys
+            gid(gl) == gidof[<<co.cid, pid[gl[1]], gl[2]>>]
+        IN [roots |-> {gid(gl) : gl \in {x \in GoalRootsFast(C, Ns, P) : known(x)}},
+            edges |-> {<<IF known(e[1]) THEN gid(e[1]) ELSE 0, gid(e[2])>> :
+                         e \in {x \in GoalEdgesFast(C, Ns, P) : known(x[2])}}]
+      all == TLCEval([i \in DOMAIN t.cos |-> perco(t.cos[i])])
+  IN [roots |-> UNION {all[i].roots : i \in DOMAIN t.cos} \cup {y[1] : y \in {z \in GoalRecs(t) : z[2] = "c"}},
+      edges |-> UNION {all[i].edges : i \in DOMAIN t.cos}]   \* parent 0 = a dependency without registered goal
 
 NoEv == [cover |-> <<>>, cur |-> <<>>, cov |-> <<>>, objs |-> <<>>]
-Init == /\ tid \in 1..Len(Traces) /\ l = 0 /\ cur = NoEv /\ prev = NoEv
+Init == /\ tid \in 1..Len(Traces) /\ l = 0 /\ cur = NoEv /\ prev = NoEv /\ mroots = {} /\ mpar = <<>>
 Next == /\ l < Len(Traces[tid].ev)
         /\ l' = l + 1
         /\ cur' = Traces[tid].ev[l + 1]
         /\ prev' = cur
+        /\ IF l = 0
+           THEN LET sg == StructGoalGraph(Traces[tid])
+                IN /\ mroots' = sg.roots
+                   /\ mpar' = TLCEval([g \in 1..Traces[tid].n |-> {e[1] : e \in {x \in sg.edges : x[2] = g}}])
+           ELSE UNCHANGED <<mroots, mpar>>
         /\ UNCHANGED tid
 Spec == Init /\ [][Next]_vars
 
@@ -30,10 +58,22 @@ Objs    == ToSet(cur.objs)
 
 InitialGoals == l = 1 => (Current = Roots /\ Covered = {})
 \* C07: each goal is a root or becomes current once all goals it structurally depends on are covered
+\*   \A g \in Goals : g \in Roots \/ (ParentsOf(Edges, g) # {} /\
+\*                                      (ParentsOf(Edges, g) \subseteq Covered => g \in Current \cup Covered))
+\* written with one pass over the edges: HasParent = goals with a parent, Blocked = goals with an
+\* uncovered parent
+HasParent == {e[2] : e \in Edges}
+Blocked   == {e[2] : e \in {x \in Edges : x[1] \notin Covered}}
 GoalReachable ==
-  l > 0 => \A g \in Goals : \/ g \in Roots
-                            \/ /\ ParentsOf(Edges, g) # {}
-                               /\ ParentsOf(Edges, g) \subseteq Covered => g \in Current \cup Covered
+  l > 0 => \A g \in Goals \ Roots : g \in HasParent /\ (g \notin Blocked => g \in Current \cup Covered)
+\* the same with the structural roots / parents derived by TLC from the registered CDGs: a structural
+\* root goal is an initial goal; any other goal has structural parents, all of them are goals, and it
+\* is current or covered once they are covered
+GoalReachableStructural ==
+  l > 0 => \A g \in Goals :
+             IF g \in mroots THEN (l = 1 => g \in Current)
+             ELSE /\ mpar[g] # {} /\ 0 \notin mpar[g]
+                  /\ mpar[g] \subseteq Covered => g \in Current \cup Covered
 Disjoint == l > 0 => Current \cap Covered = {}
 \* no goal lost
 NoGoalLost   == l > 1 => ToSet(prev.cur) \subseteq Current \cup Covered
